@@ -27,7 +27,8 @@ CONFIG = {
              "maps / sequences / arrays-of-hashes / scalars of every type, (B) one-key documents over 40 keys with "
              "special characters at three nesting shapes, (C) 60 hand-written templates with anchored scalars / maps / "
              "sequences, aliases as map values and list elements, aliased keys, merge keys (single, multiple, "
-             "overriding), sets; (D) seeded random larger documents with anchors and merge keys.  Each document x the "
+             "overriding), sets; (C') 8 documents with anchored booleans (ruamel ScalarBoolean) as values / elements / "
+             "keys / set members x a boolean term alphabet; (D) seeded random larger documents with anchors and merge keys.  Each document x the "
              "nine operators x inverted or not x a term alphabet x {values, keys+values, keys-only} x the four "
              "alias-inclusion modes x expand on/off x both notations (full cross product on B and C for quick-tier "
              "budget reasons sampled by a seeded Latin-style rotation on A and D); a separate stream of malformed "
@@ -155,6 +156,9 @@ def hay_texts(h):
     """Candidate values of str(Nodes.typed_value(h)), from the libraries only."""
     from ast import literal_eval
     c = [str(h)]
+    if type(h).__name__ == "ScalarBoolean":
+        # searches.py:42-44: an anchored YAML boolean is searched as bool(h); its text is "True" / "False"
+        c.append(str(bool(h)))
     t = oracles.lit_text_for(h)
     if t is not None:
         try:
@@ -818,6 +822,21 @@ ANCHOR_DOCS = [
 ]
 
 
+# anchored YAML booleans load as ruamel's ScalarBoolean (an int subclass whose str() is "1" / "0");
+# Searches.search_matches compares them as Booleans (C12).  Values, elements, keys, set members.
+SBOOL_DOCS = [
+    "{a: &x true, b: *x, c: true, d: 1}",
+    "{a: &x false, b: *x, c: false, d: 0}",
+    "[&t true, &f false, *t, *f, true, 1, 'true']",
+    "{&k true: a, b: *k}",
+    "{x: {&k false: 1}, y: {*k : true}}",
+    "{a: !!set {&m false, a}, b: *m}",
+    "{a: &x {k: &y true}, b: *x, c: {<<: *x}, d: *y}",
+    "[&t True, &f FALSE, *t]",
+]
+SBOOL_TERMS = ["true", "false", "1", "0", "True", "T", "r", "e$", "^[01]$"]
+
+
 def rand_scalar(rng):
     return rng.choice(SCALARS + ["a", "1", "b"])
 
@@ -900,6 +919,12 @@ def chunks(tier, seed):
             for o in allo_ref:
                 for sp in ("dot", "slash"):
                     emit((doc, e, sp, o))
+        yield from flush()
+    # (C') anchored booleans (ScalarBoolean) as values, elements, keys, set members
+    for doc in SBOOL_DOCS:
+        for e in exprs(SBOOL_TERMS):
+            for o in (allo if thorough else _take(rng, allo, 6)):
+                emit((doc, e, "dot" if rng.random() < 0.5 else "slash", o))
         yield from flush()
     # (B) special keys
     for doc in special_key_docs():
